@@ -19,6 +19,7 @@ RULE = (
     "non-trivial = history with a reconnect after a disconnect, a list op overlapping an existing link, or a freed slot in the middle"
     ' Also (added while the seeded-change rounds of DESIGN section 9 ran): Also: refused requests that mix own and foreign modules, one operand list reused for several requests, projects with 254-300 filler modules (positions above 255), fan-outs of 17 / 40 / 256+ links (from a MultiCtl every other time), every attachable module type as a link end, save() steps, and a shard in which the caller dropped the project object and kept only the modules.'
 )
+RULE += " Rounds 12-14 of DESIGN section 9 added: one link requested and withdrawn 300 (700) times next to links that stay, invariants after every request; mixed cross-project requests through ModuleList objects and `x >> [] >> [...]` chains."
 ASSUMPTIONS = [
     "~a >> x and a plain list as the left operand of >> / << are not supported spellings and are not generated",
     "for a refused cross-project operation only: error class, no foreign pair recorded, tables consistent and unchanged for pairs not named by the op",
